@@ -62,15 +62,18 @@ structure Once where
   overran : Bool
 deriving Inhabited
 
-/-- `checkOnce(t, prop)`: `runProp` (prop, deferred cleanup, deferred recover: a panic in a
-    cleanup supersedes the body's), then `pendingFailure`: a non-fatal failure — however the
+/-- `checkOnce(t, prop)`: `runProp` (prop, deferred cleanup, deferred recover: a failure in a
+    cleanup supersedes the body's; invalid data raised by a cleanup counts only if the body ended
+    normally), then `pendingFailure`: a non-fatal failure — however the
     property ended: returned, skipped afterwards, signalled from a cleanup — falsifies this
     test case (one traceback for all of them) and is cleared. -/
 def checkOnce (p : Prog) (src : Src) (ts : TS) : Once :=
   let o := p.run src { ts with ctxCount := 0 }
   let c := cleanupPhase o.ts
   let err0 : Option Err := match c.err with
-    | some e => some (e.nest (cleanupCtx o.res o.ts))
+    | some e =>
+      if e.isInvalid then (match o.res with | .error e0 => some e0 | .ok _ => some e)
+      else some (e.nest (cleanupCtx o.res o.ts))
     | none => match o.res with | .error e => some e | .ok _ => none
   let err : Option Err := match c.ts.failed with
     | some m => (match err0 with
